@@ -74,8 +74,10 @@ func c17(c *Ctx) {
 	})
 	// fields of the cache key literal r
 	rvals := map[string]string{}
+	var keyCell *ssa.Alloc // the local holding the (chain, tx) cache key, whatever it is called
 	eachInstr(fn, func(i ssa.Instruction) {
-		if al, ok := i.(*ssa.Alloc); ok && facts.LocalName(fn, al.Comment) == "r" && al.Referrers() != nil {
+		if al, ok := i.(*ssa.Alloc); ok && c17isKeyCell(al) && al.Referrers() != nil {
+			keyCell = al
 			for _, r := range *al.Referrers() {
 				if fa, ok := r.(*ssa.FieldAddr); ok && fa.Referrers() != nil {
 					for _, rr := range *fa.Referrers() {
@@ -107,8 +109,10 @@ func c17(c *Ctx) {
 	R.Check("C17.route", "C17.route/value-forwarded", c.rel(p.Pos(theSend.Instr.Pos())), "the value forwarded is the request itself", facts.Term(theSend.X) == req, "sent value = "+facts.Term(theSend.X))
 	if keyVal != nil {
 		kt := facts.Term(keyVal)
-		if kt == "local:r.chainId" && rvals["chainId"] != "" {
-			kt = rvals["chainId"]
+		if u, ok := keyVal.(*ssa.UnOp); ok {
+			if fa, ok := u.X.(*ssa.FieldAddr); ok && keyCell != nil && fa.X == ssa.Value(keyCell) && fieldOfAddr(fa).Name() == "chainId" && rvals["chainId"] != "" {
+				kt = rvals["chainId"]
+			}
 		}
 		lossless := !strings.Contains(kt, "narrow:")
 		if !lossless {
@@ -141,7 +145,10 @@ func c17(c *Ctx) {
 		sel := theSend.Instr.(*ssa.Select)
 		want := fmt.Sprintf("%d == %s#0", theSend.State, facts.Term(sel))
 		keyT := facts.Term(mu.Key)
-		okKey := strings.Contains(keyT, "local:r") || strings.Contains(keyT, "complit")
+		okKey := strings.Contains(keyT, "complit")
+		if u, ok := mu.Key.(*ssa.UnOp); ok && keyCell != nil && u.X == ssa.Value(keyCell) {
+			okKey = true
+		}
 		R.Check("C17.remember-on-success", R.Key("C17.remember-on-success", shortFn(fn), "mapupdate:cache"), c.rel(p.Pos(mu.Pos())), "the (chain, tx) pair is remembered only when the send to the watcher succeeded, with the current clock time", facts.HasAtom(fs, want) && okKey && strings.HasPrefix(facts.Term(mu.Value), "invoke:github.com/benbjohnson/clock.Clock.Now("), "missing fact "+want+"; key="+keyT+" value="+facts.Term(mu.Value), facts.Atoms(fs)...)
 	})
 	R.Floor("C17.remember-on-success", nmu, 1)
@@ -194,4 +201,18 @@ func c17(c *Ctx) {
 		}
 	})
 	R.Check("C17.window", "C17.window/ticker", c.rel(p.Pos(fn.Pos())), "purge ticker period is 7 minutes", okTick, "ticker constant changed")
+}
+
+// c17isKeyCell: a local of the dispatcher's cache-key struct type (two fields: chain id and tx hash).
+func c17isKeyCell(al *ssa.Alloc) bool {
+	pt, ok := al.Type().Underlying().(*types.Pointer)
+	if !ok {
+		return false
+	}
+	st, ok := pt.Elem().Underlying().(*types.Struct)
+	if !ok || st.NumFields() != 2 {
+		return false
+	}
+	names := map[string]bool{st.Field(0).Name(): true, st.Field(1).Name(): true}
+	return names["chainId"] && names["txHash"]
 }
